@@ -33,7 +33,13 @@ type instSpec struct {
 	// FailAt > 0: a writer whose destination fails from its FailAt-th Write call on (error paths of one instance must not
 	// leave shared state behind that changes what other instances write)
 	FailAt int `json:"failat,omitempty"`
+	// SharedOpts: the writer is built from an options slice that has spare capacity and is SHARED by all instances of the
+	// case that set this flag (a caller configuring several writers from one slice: NewParquetWriter(w, opts...))
+	SharedOpts bool `json:"sharedopts,omitempty"`
 }
+
+// the options slice shared by the instances of the current schedule (nil: every instance passes its options explicitly)
+var sharedOpts []func(*ParquetWriter) error
 
 type schedSpec struct {
 	Insts    []instSpec `json:"insts"`
@@ -82,7 +88,17 @@ func runInst(is instSpec, file []byte, inst int, g *gate) (res instResult) {
 	}
 	snk := &callSink{inst: inst, g: g, failAt: is.FailAt}
 	defer func() { res.calls = snk.calls }()
-	w, err := NewParquetWriter(snk, MaxPageSize(is.Page), codecOpt[is.Codec])
+	var w *ParquetWriter
+	var err error
+	if is.SharedOpts {
+		opts := sharedOpts
+		if g == nil || opts == nil { // solo / baseline run: a private slice of the same shape
+			opts = append(make([]func(*ParquetWriter) error, 0, 8), MaxPageSize(is.Page), codecOpt[is.Codec])
+		}
+		w, err = NewParquetWriter(snk, opts...)
+	} else {
+		w, err = NewParquetWriter(snk, MaxPageSize(is.Page), codecOpt[is.Codec])
+	}
 	if err != nil {
 		res.err = err.Error()
 		return
@@ -308,6 +324,13 @@ func runSched(c jobCase) {
 	}
 	old := debug.SetGCPercent(-1) // a GC would empty sync.Pool and hide an early release
 	defer debug.SetGCPercent(old)
+	sharedOpts = nil
+	for _, is := range ss.Insts {
+		if is.SharedOpts && is.Kind == "w" {
+			sharedOpts = append(make([]func(*ParquetWriter) error, 0, 8), MaxPageSize(is.Page), codecOpt[is.Codec])
+			break
+		}
+	}
 	g := &gate{waiting: map[int]chan struct{}{}, arrived: make(chan int, 64)}
 	results := make([]instResult, n)
 	done := make([]bool, n)
